@@ -138,6 +138,13 @@ func (h *NFSProcedureHandler) handleWrite(body io.Reader, reply *RPCReply, authC
 		return nfsErrorWithWcc(reply, NFSERR_INVAL), nil
 	}
 
+	// Enforce MaxFileSize: a write that would end beyond the limit is refused
+	if maxFileSize := h.server.handler.policy.Load().MaxFileSize; maxFileSize > 0 && count > 0 {
+		if offset > uint64(maxFileSize) || uint64(count) > uint64(maxFileSize)-offset {
+			return nfsErrorWithWcc(reply, NFSERR_FBIG), nil
+		}
+	}
+
 	data := make([]byte, count)
 	if _, err := io.ReadFull(body, data); err != nil {
 		return nfsErrorWithWcc(reply, GARBAGE_ARGS), nil
